@@ -44,6 +44,8 @@ type scriptConn struct {
 	blocks  []int // complete reply frames written at each blocking point (a Read that had to wait for a new segment)
 	closed  int
 	wantBlk bool
+	wfail   int // >0: the wfail-th and every later Write fails
+	writes  int
 }
 
 func (c *scriptConn) Read(b []byte) (int, error) {
@@ -74,8 +76,14 @@ func countFrames(b []byte) int {
 }
 
 func (c *scriptConn) Write(b []byte) (int, error) {
-	c.written = append(c.written, b...)
 	c.log.add("wr:" + canonReply(b))
+	c.writes++
+	if c.wfail > 0 && c.writes >= c.wfail {
+		// the peer has gone away: this and every later write fails (what was attempted is still recorded - the loop
+		// does not branch on the outcome of a write)
+		return 0, io.ErrClosedPipe
+	}
+	c.written = append(c.written, b...)
 	return len(b), nil
 }
 
@@ -359,6 +367,7 @@ type serveCase struct {
 	noHandler bool
 	trace     bool
 	blk       bool
+	wfail     int
 	segs      [][]byte
 	script    []scriptedResult
 }
@@ -434,6 +443,8 @@ func parseServeCase(toks []string) *serveCase {
 			c.trace = true
 		case t == "blk":
 			c.blk = true
+		case strings.HasPrefix(t, "wfail="):
+			c.wfail, _ = strconv.Atoi(t[6:])
 		}
 	}
 	if len(secs) > 1 {
@@ -476,7 +487,7 @@ func newServerFor(c *serveCase, log *eventLog) (*redis.Server, *double) {
 func runServe(c *serveCase) *serveResult {
 	log := &eventLog{}
 	srv, d := newServerFor(c, log)
-	conn := &scriptConn{log: log, segs: c.segs}
+	conn := &scriptConn{log: log, segs: c.segs, wfail: c.wfail}
 	res := &serveResult{}
 	done := make(chan struct{})
 	go func() {
